@@ -1361,17 +1361,3 @@ Lemma C11_nonvacuous_holds :
    (1, 1, 0, 2, [104; 105])].
 Proof. repeat split; vm_compute; try reflexivity; discriminate. Qed.
 
-Lemma C11_nonvacuous_holds :
-  fwd_inb ex_node ex_now ex_bundle = true /\ eids_stableb (prim ex_bundle) = true /\
-  payload_stableb ex_bundle = true /\ prev_parseb ex_bundle = true /\ age_parseb ex_bundle = true /\
-  payload_last_num1b (blocks ex_bundle) = true /\
-  (create_time (prim ex_bundle) =? 0) = false /\ (lifetime (prim ex_bundle) =? 0) = false /\
-  create_time (prim ex_bundle) <= ex_now /\ recv_crc_ok ex_bundle = true /\
-  eid_eqb (src (prim ex_bundle)) ex_node = false /\
-  decode_bundle (encode_bundle ex_bundle) = Some ex_bundle /\
-  map core (blocks (do_fwd ex_node ex_now ex_bundle)) =
-  [(10, 3, 0, 1, [130; 24; 30; 4]); (192, 5, 1, 2, [1; 2; 3]);
-   (6, 2, 0, 0, [130; 1; 101; 47; 47; 109; 101; 47]);
-   (7, 4, 0, 0, [27; 0; 0; 0; 23; 72; 118; 232; 0]);
-   (1, 1, 0, 2, [104; 105])].
-Proof. exact C11_nonvacuous_holds. Qed.
